@@ -367,6 +367,45 @@ fn vp_native_redirect_across_no_proxy_boundary() {
     println!("VP-NATIVE redirect_across_no_proxy_boundary cases=2");
 }
 
+/// C19: sending returns once the head has arrived, and every body byte that has arrived can be read without waiting for more:
+/// length- and close-delimited bodies, the server pausing after k body bytes, every caller read size (smaller, equal, larger)
+#[test]
+fn vp_native_body_delivered_as_it_arrives() {
+    let mut cases = 0u64;
+    for framing in ["length", "close"] { for k in [0usize, 1, 2, 5, 9] { for bsize in [1usize, 3, 9, 10, 16, 8192] {
+        if k == 0 && bsize != 1 { continue; }
+        let l = TcpListener::bind("127.0.0.1:0").unwrap();
+        let port = l.local_addr().unwrap().port();
+        let body: Vec<u8> = (0..10u8).map(|i| b'0' + i).collect();
+        let sent = body[..k].to_vec();
+        std::thread::spawn(move || {
+            if let Ok((mut s, _)) = l.accept() {
+                let mut r = BufReader::new(s.try_clone().unwrap());
+                loop { let mut h = String::new(); if r.read_line(&mut h).unwrap_or(0) == 0 || h == "\r\n" { break; } }
+                let head = if framing == "length" { "HTTP/1.1 200 OK\r\nContent-Length: 10\r\n\r\n" } else { "HTTP/1.1 200 OK\r\n\r\n" };
+                s.write_all(head.as_bytes()).ok(); s.write_all(&sent).ok(); s.flush().ok();
+                std::thread::sleep(std::time::Duration::from_millis(2500));   // the server pauses "indefinitely"
+            }
+        });
+        let ctx = format!("{}-delimited body, server paused after {} of 10 body bytes, caller reads of {} bytes", framing, k, bsize);
+        let t0 = std::time::Instant::now();
+        let mut resp = crate::get(format!("http://127.0.0.1:{}/", port)).read_timeout(std::time::Duration::from_millis(1200)).send()
+            .unwrap_or_else(|e| panic!("send() must return once the head has arrived ({}): {}", ctx, e));
+        let mut got = Vec::new();
+        while got.len() < k {
+            let mut b = vec![0u8; bsize];
+            match resp.read(&mut b) {
+                Ok(n) => { assert!(n >= 1 && n <= k - got.len(), "read returned {} with {} bytes outstanding ({})", n, k - got.len(), ctx); got.extend_from_slice(&b[..n]); }
+                Err(e) => panic!("a read that could be satisfied from what had arrived failed after {:?}: {} ({}; {} bytes read so far)", t0.elapsed(), e, ctx, got.len()),
+            }
+        }
+        assert_eq!(got, &body[..k], "{}", ctx);
+        assert!(t0.elapsed() < std::time::Duration::from_millis(1000), "reading what had arrived took {:?} ({})", t0.elapsed(), ctx);
+        cases += 1;
+    } } }
+    println!("VP-NATIVE body_delivered_as_it_arrives cases={}", cases);
+}
+
 /// C12: CONNECT handshake: request text (authority with effective port, proxy credentials only), and for every refusal status and
 /// reply shape nothing further is written to the proxy and at most 10 KiB of its body are kept
 #[test]
